@@ -24,6 +24,10 @@ def run(model, rep, tier):
              'emits both captured strings whole')
     tsrules.attribution(ctx, rep, 'C13.R3')
     r3_formatter_side(ctx, rep)
+    rep.rule('C13.R6', 'with --buffer, from startTest until the first reported failure, error or '
+             'skip of a test (in particular across passing subtests) both std streams are the '
+             'capture buffers, so what a passing test writes never reaches the real streams')
+    tsrules.buffered_while_running(ctx, rep, 'C13.R6')
     rep.rule('C13.R4', 'without --buffer no TestResult callback assigns sys.stdout/sys.stderr; the '
              'only functions of the package that assign sys.stdout, sys.stderr or sys.stdin are the '
              'ones tabulated (capture set-up/restore, subprocess child set-up)')
